@@ -23,7 +23,9 @@ RULE = ('cases: (a) plain mode = secret class (1, n-1, leading zero bytes, high 
         'emoji, decomposed Hangul) x API (Key, HDKey legacy, HDKey default witness type, bip38_encrypt/bip38_decrypt): '
         'encrypt vs reference, decrypt of the reference string, decrypt with a different passphrase; (b) EC-multiplied = '
         'passphrase class x owner salt 8 bytes / lot+sequence (4 or 8 byte salt, lot/sequence edges) x compressed x network: '
-        'intermediate code, generated key + confirmation code vs reference, decrypt of the reference key, different '
+        'intermediate code, generated key + confirmation code vs reference, decrypt of the reference key with every returned value '
+        'judged (key bytes, address hash, compression flag, and the whole info dict of bip38_decrypt: wif, private/public key, seed, '
+        'address, lot, sequence; wif/address/public key of the Key object), different '
         'passphrase; (c) one freshness history per run, in one process: >= 48 full default-argument flows (new intermediate code + '
         'new key) followed by >= 96 new keys on one intermediate code (thorough: 400 + 3000), compared pairwise over the whole '
         'history (owner salts, codes, seeds, keys, addresses, encrypted keys, confirmation codes, shared 8-byte windows). non-trivial = distinct (mode, API, secret/salt class, compressed, network, '
@@ -138,7 +140,58 @@ def _lib_decrypt(api, enc, network, pw):
         return ('func', bip38_decrypt(enc, pw))
     else:
         k = Key(enc, password=pw, network=network)
+        _last_key_views.clear()
+        _last_key_views.update({'wif': k.wif(), 'address': k.address(), 'public_key': k.public_hex})
     return bytes(k.private_byte), bool(k.compressed)
+
+
+_last_key_views = {}
+
+
+def _expected_views(network, secret, compressed, seedb=None, lot=None, seq=None):
+    """Every derived value the decrypting APIs report, from the reference."""
+    pub = ec.pub_from_secret(int.from_bytes(secret, 'big'), compressed)
+    addr = _fn(network)(pub)
+    return {'secret': secret, 'compressed': compressed, 'address': addr, 'addresshash': ref.addresshash(addr),
+            'wif': chain.wif_encode(network, secret, compressed), 'private_key': secret.hex(), 'public_key': pub.hex(),
+            'seed': seedb.hex() if seedb is not None else None, 'lot': lot, 'sequence': seq}
+
+
+EC_INFO_KEYS = ('wif', 'private_key', 'public_key', 'seed', 'address', 'lot', 'sequence')
+
+
+def _judge_func_result(r, exp, case, col, mode):
+    """All four values returned by bip38_decrypt: key bytes, address hash, compression flag and every entry of the info
+    dictionary (EC-multiplied mode must report wif, private_key, public_key, seed, address, lot, sequence)."""
+    col.probe('func_result_fields')
+    bad = []
+    try:
+        priv, ah, comp, info = bytes(r[0]), bytes(r[1]), r[2], r[3]
+    except Exception as e:
+        col.violation(None, 'bip38_decrypt result is not (key, addresshash, compressed, info): %r' % (e,), case, repr(r)[:200], None)
+        return
+    if priv != exp['secret']:
+        bad.append(('private key bytes', priv.hex(), exp['secret'].hex()))
+    if ah != exp['addresshash']:
+        bad.append(('address hash', ah.hex(), exp['addresshash'].hex()))
+    if comp is not exp['compressed'] and comp != exp['compressed']:
+        bad.append(('compressed flag', comp, exp['compressed']))
+    if not isinstance(info, dict):
+        bad.append(('info', repr(info)[:80], 'dict'))
+        info = {}
+    if mode == 'ec':
+        for k in EC_INFO_KEYS:
+            if k not in info:
+                bad.append(('info[%r]' % k, 'missing', exp[k]))
+    for k, v in info.items():
+        if k in exp and k not in ('secret', 'compressed', 'addresshash'):
+            got = v.hex() if isinstance(v, (bytes, bytearray)) else v
+            if got != exp[k] and not (isinstance(got, str) and isinstance(exp[k], str) and k in ('private_key', 'public_key', 'seed') and got.lower() == exp[k]):
+                bad.append(('info[%r]' % k, got, exp[k]))
+    if bad:
+        col.violation(None, 'bip38_decrypt (%s mode, %s, %s) reports wrong %s' % (
+            mode, 'compressed' if exp['compressed'] else 'uncompressed', 'lot/sequence' if exp['lot'] is not None else 'no lot/sequence',
+            ', '.join(b[0] for b in bad)), case, {b[0]: b[1] for b in bad}, {b[0]: b[2] for b in bad})
 
 
 def _func_verifies(r, network, expect_secret=None):
@@ -188,17 +241,25 @@ def chk_noec(case, col, rnd):
         _chk_wrong(api, exp, network, _wrong(pw, rnd), case, col, 'noec_wrong_passphrase')
 
 
-def _chk_decrypt(api, enc, network, pw, secret, compressed, case, col, mode):
+def _chk_decrypt(api, enc, network, pw, secret, compressed, case, col, mode, exp=None):
+    exp = exp or _expected_views(network, secret, compressed)
     try:
         r = _lib_decrypt(api, enc, network, pw)
         if r[0] == 'func':
             ok, priv, comp = _func_verifies(r[1], network)
             if mode == 'plain' and not ok:
                 raise ValueError('address hash returned by bip38_decrypt does not confirm the returned key')
+            _judge_func_result(r[1], exp, case, col, mode)
             r = (priv, comp)
         if r != (secret, compressed):
             col.violation(None, '%s decrypt (%s mode, %s) returned another key or compression flag' % (api, mode, network), case,
                           [r[0].hex(), r[1]], [secret.hex(), compressed])
+        elif api == 'Key':
+            col.probe('key_object_views')
+            bad = sorted(k for k, v in _last_key_views.items() if v != exp[k])
+            if bad:
+                col.violation(None, 'Key(%s-mode key, password) object reports wrong %s' % (mode, ', '.join(bad)), case,
+                              {k: _last_key_views[k] for k in bad}, {k: exp[k] for k in bad})
     except Exception as e:
         key = _classify_refusal(api, enc, network, pw, secret, compressed, e, mode)
         col.violation(key, '%s refused to decrypt a BIP38 %s-mode key with the right passphrase (%s, %s): %r' % (
@@ -307,15 +368,16 @@ def chk_ec(case, col, rnd):
 
     # -- the passphrase owner decrypts the reference key
     col.probe('ec_decrypt')
-    _chk_decrypt(api, g['encrypted'], network, pw, g['secret'], compressed, case, col, 'ec')
-    if api == 'func' and network == 'bitcoin':
+    exp = _expected_views(network, g['secret'], compressed, seedb, lot, seq)
+    _chk_decrypt(api, g['encrypted'], network, pw, g['secret'], compressed, case, col, 'ec', exp=exp)
+    if api != 'func':
+        # every EC case also judges the full result of bip38_decrypt itself (key, hash, flag and the whole info dict)
         try:
-            d = bip38_decrypt(g['encrypted'], unicodedata.normalize('NFC', pw))[3]
-            if (d.get('lot'), d.get('sequence'), d.get('address')) != (lot, seq, g['address']) or d.get('seed') != seedb.hex():
-                col.violation(None, 'bip38_decrypt reports wrong lot/sequence/address/seed', case,
-                              [d.get('lot'), d.get('sequence'), d.get('address'), d.get('seed')], [lot, seq, g['address'], seedb.hex()])
+            r = _lib_decrypt('func', g['encrypted'], network, pw)
         except Exception:
-            pass        # a refusal here was already judged above
+            r = None        # a refusal of the right passphrase is judged (and classified) through the API of this case
+        if r is not None:
+            _judge_func_result(r[1], exp, case, col, 'ec')
     # -- a different passphrase must be refused (meaningful where the right one is accepted: bitcoin-version networks)
     if case.get('wrong', True) and chain.NETWORKS[network]['p2pkh'] == chain.NETWORKS['bitcoin']['p2pkh']:
         _chk_wrong(api, g['encrypted'], network, _wrong(pw, rnd), case, col, 'ec_wrong_passphrase', mode='ec')
@@ -538,7 +600,7 @@ def run_shard(spec, col):
     if not _selfcheck(col, full=spec.get('full_selfcheck', False)):
         return
     for p in ('noec_encrypt', 'noec_decrypt', 'noec_wrong_passphrase', 'ec_intermediate', 'ec_generate', 'ec_decrypt',
-              'ec_wrong_passphrase'):
+              'ec_wrong_passphrase', 'func_result_fields', 'key_object_views'):
         col.require(p)
     # the freshness history must be long: >= 48 owner salts and >= 144 seeds compared pairwise within one process
     col.require('fresh_salt_history', 48)
